@@ -34,11 +34,12 @@ RULE = ("seeded random cases: operator (delay, delay_subscription, delay_with_ma
 ASSUMPTIONS = ["TestScheduler / HistoricalScheduler are the clock (their ordering is checked independently by C28)",
                "probe sources and probe observers are harness code (conforming here)",
                "an absolute datetime given to delay() denotes the shift D - (subscription time); only D >= subscription time is generated"]
-CASES = {"quick": 4000, "thorough": 160000}
+CASES = {"quick": 16000, "thorough": 640000}
 OPS = ["delay", "delay", "delay", "delay_subscription", "delay_subscription", "delay_with_mapper", "delay_with_mapper",
        "delay_with_mapper", "timestamp", "time_interval"]
 OPSET = sorted(set(OPS))
 REQUIRED = {"set:ops": len(OPSET), "set:clocks": 2, "set:shapes": 4,
+            "ties": {"quick": 50, "thorough": 1000},
             "delay_error_with_pending": {"quick": 20, "thorough": 400},
             "delay_zero": {"quick": 10, "thorough": 200},
             "same_instant_bursts": {"quick": 100, "thorough": 2000},
@@ -110,7 +111,7 @@ def model_delay(seen: list, d: float) -> list[list]:
     return [out]
 
 
-def model_dwm(lab: Lab, n_specs: int) -> list:
+def model_dwm(lab: Lab) -> list:
     """Walks the observed trace: source element i is pending until the first N/C of delay source d<i>."""
     out: list = []
     pending: dict[int, Any] = {}
@@ -251,7 +252,7 @@ def run_case(seed: int, idx: int, res: UnitResult) -> None:
         if d == 0:
             res.count("delay_zero")
     elif op == "delay_with_mapper":
-        expected = model_dwm(lab, len(P["delays"]))
+        expected = model_dwm(lab)
         alts = [expected]
         sub = T.subs(lab, "s")
         extra["source_subscriptions"] = [t for (_, t) in sub]
